@@ -164,6 +164,8 @@ func EnvAt(now time.Time) sim.Env {
 	return sim.Env{Now: now, ACS: ACS, SLO: SLO, IdPIssuer: IdPIss, Audience: Audience}
 }
 
+var spSerial atomic.Int64
+
 // NewSP returns a service provider trusting the given certificates, with a spy clock at now.
 func NewSP(now time.Time, store ...*sim.Cert) (*saml2.SAMLServiceProvider, *SpyClock, *SpyStore) {
 	clk := &SpyClock{T: now}
@@ -182,6 +184,11 @@ func NewSP(now time.Time, store ...*sim.Cert) (*saml2.SAMLServiceProvider, *SpyC
 		IDPCertificateStore:         st,
 		Clock:                       dsig.NewFakeClock(clk),
 	}
+	// fields that describe the IdP's side and that no property mentions: any value, chosen by the instant
+	bindings := []string{"", saml2.BindingHttpPost, saml2.BindingHttpRedirect, "urn:oasis:names:tc:SAML:2.0:bindings:SOAP", "urn:verif:unknown-binding"}
+	h := mon.Hash64("bindings", fmt.Sprint(spSerial.Add(1)))
+	sp.IdentityProviderSSOBinding = bindings[h%uint64(len(bindings))]
+	sp.IdentityProviderSLOBinding = bindings[(h/7)%uint64(len(bindings))]
 	return sp, clk, st
 }
 
